@@ -102,4 +102,21 @@ example : dumpSpec [72,101,108,108,111,32,0,255,13,126] =
      32, 46,126,46,46,46,46,46,46, 10] := by
   decide +kernel
 
+/-- **Opus DDOS default volume.**  On an Opus DDOS disc drive N means volume NA,
+    however many volumes the disc has (one, or up to eight): mounting without a
+    volume letter is mounting volume `A` (65) — and fails the same way when the
+    disc has no volume A. -/
+theorem C01_opus_default_volume (fs : FileSystem) (h : fs.fmt = Format.OpusDDOS) :
+    fs.mount none = fs.mount (some 65) := by
+  simp [FileSystem.mount, h]
+
+/-- for contrast: on every other format there is no default — the volume mounted
+    is the one catalogued under exactly the key given (for a plain drive number,
+    the volume without a letter). -/
+theorem C01_other_formats_no_default (fs : FileSystem) (h : fs.fmt ≠ Format.OpusDDOS) (key : Option Nat) :
+    fs.mount key = (fs.vols.find? (fun p => p.1 == key)).map (·.2) := by
+  have hf : (fs.fmt == Format.OpusDDOS) = false := by
+    cases hfmt : fs.fmt <;> first | rfl | exact absurd hfmt h
+  simp [FileSystem.mount, hf]
+
 end Beeb.Props.C01
